@@ -170,7 +170,11 @@ func buildBinary(dir, name string) (string, error) {
 	if repo == "" {
 		repo = "/repo"
 	}
-	cmd := exec.Command(gobin, "build", "-ldflags=-checklinkname=0", "-o", out, "./"+name)
+	args := []string{"build", "-ldflags=-checklinkname=0", "-o", out}
+	if os.Getenv("VERIF_SYS_RACE") == "1" {
+		args = append(args, "-race") // C20: the binaries report their own races on stderr
+	}
+	cmd := exec.Command(gobin, append(args, "./"+name)...)
 	cmd.Dir = repo
 	cmd.Env = append(os.Environ(), "GOFLAGS=-mod=mod", "GOPROXY=off", "GOSUMDB=off", "GOTOOLCHAIN=local")
 	if b, err := cmd.CombinedOutput(); err != nil {
@@ -214,6 +218,9 @@ func setup(r *rig.Rig) (*env, error) {
 		"-bridge-list-path", bl, "-allowed-relay-pattern", "$", "-default-relay-pattern", "$", "-metrics-log", filepath.Join(dir, "metrics.log"))
 	bl2, _ := os.Create(filepath.Join(dir, "broker.log"))
 	e.broker.Stderr, e.broker.Stdout = bl2, bl2
+	if os.Getenv("VERIF_SYS_RACE") == "1" {
+		e.broker.Env = append(os.Environ(), "GORACE=halt_on_error=0 log_path="+filepath.Join(dir, "race-broker"))
+	}
 	if err := e.broker.Start(); err != nil {
 		return nil, err
 	}
@@ -256,6 +263,9 @@ func (e *env) startProxy() *exec.Cmd {
 		"-relay", "ws://"+e.relay.ln.Addr().String()+"/", "-allowed-relay-hostname-pattern", "$", "-allow-non-tls-relay",
 		"-keep-local-addresses", "-verbose", "-log", filepath.Join(e.dir, fmt.Sprintf("proxy%d.log", n)))
 	cmd.Stderr, cmd.Stdout = io.Discard, io.Discard
+	if os.Getenv("VERIF_SYS_RACE") == "1" {
+		cmd.Env = append(os.Environ(), "GORACE=halt_on_error=0 log_path="+filepath.Join(e.dir, fmt.Sprintf("race-proxy%d", n)))
+	}
 	if err := cmd.Start(); err != nil {
 		return nil
 	}
@@ -455,7 +465,18 @@ func TestVerifC01System(t *testing.T) {
 		if theEnv != nil {
 			theEnv.killAllProxies()
 			if theEnv.broker != nil && theEnv.broker.Process != nil {
+				theEnv.broker.Process.Signal(syscall.SIGTERM)
+				time.Sleep(200 * time.Millisecond)
 				theEnv.broker.Process.Kill()
+			}
+			if os.Getenv("VERIF_SYS_RACE") == "1" {
+				// hand the binaries' own race reports to the driver (it parses this process' output)
+				files, _ := filepath.Glob(filepath.Join(theEnv.dir, "race-*"))
+				for _, f := range files {
+					if b, err := os.ReadFile(f); err == nil {
+						fmt.Printf("\n[race report of %s]\n%s\n", filepath.Base(f), b)
+					}
+				}
 			}
 		}
 	}()
